@@ -70,7 +70,9 @@ def worker_main(args):
         if max_runs is None and time.time() - t0 > budget:
             break
         run_seed = h64(seed, pid, idx)
-        hist = gen_history(pid, run_seed)
+        # thorough tier: every third history is generated with the size knob doubled (longer DAGs,
+        # more events per epoch, more epochs/iterations); a pure function of (tier, idx)
+        hist = gen_history(pid, run_seed, 2 if (getattr(args, "tier", "quick") == "thorough" and idx % 3 == 2) else 1)
         measure = cov is not None and n % 25 == 0
         try:
             if measure:
@@ -182,7 +184,7 @@ def run_check(pid, tier, seed, workers=None, budget=None, max_runs=None, digests
     try:
         for k in range(workers):
             outp = os.path.join(tmp, f"w{k}.jsonl")
-            cmd = [PY, CHECK, "--worker", "--prop", pid, "--seed", str(seed), "--start", str(k), "--stride", str(workers), "--budget", str(budget), "--out", outp]
+            cmd = [PY, CHECK, "--worker", "--prop", pid, "--seed", str(seed), "--start", str(k), "--stride", str(workers), "--budget", str(budget), "--out", outp, "--tier", tier]
             if max_runs is not None:
                 cmd += ["--max-runs", str(max_runs)]
             if digests:
